@@ -89,6 +89,10 @@ pub struct Case {
     pub intrinsics: bool,
     /// fault-free configuration: whole image mapped, no cap, no manual edges
     pub fault_free: bool,
+    /// backing / layered: the image is loaded as several adjacent sections cut at these
+    /// byte offsets (a section seam may fall inside an instruction)
+    #[serde(default)]
+    pub section_cuts: Vec<usize>,
 }
 
 pub struct Outcome {
@@ -326,6 +330,27 @@ impl Mem {
     }
 }
 
+/// load `data` at `address` as adjacent sections cut at `cuts` (offsets into the image)
+fn set_memory_in_sections(b: &mut backing::Memory, address: u64, data: &[u8], perms: u32, image_offset: usize, cuts: &[usize], c: &mut Counters) {
+    let mut points: Vec<usize> = cuts
+        .iter()
+        .filter(|x| **x > image_offset && **x < image_offset + data.len())
+        .map(|x| x - image_offset)
+        .collect();
+    points.sort();
+    points.dedup();
+    let mut start = 0;
+    for p in points.into_iter().chain(std::iter::once(data.len())) {
+        if p > start {
+            b.set_memory(address + start as u64, data[start..p].to_vec(), MemoryPermissions::from_bits_truncate(perms));
+            if start > 0 {
+                c.inc("layered.section-seams");
+            }
+            start = p;
+        }
+    }
+}
+
 fn build_memory(case: &Case, l: &Layout, c: &mut Counters) -> Mem {
     let endian = if case.arch.big_endian() { Endian::Big } else { Endian::Little };
     match case.mem_impl.as_str() {
@@ -345,8 +370,10 @@ fn build_memory(case: &Case, l: &Layout, c: &mut Counters) -> Mem {
         }
         "backing" => {
             let mut b = backing::Memory::new(endian);
+            let mut off = 0;
             for (a, d) in &l.islands {
-                b.set_memory(*a, d.clone(), MemoryPermissions::from_bits_truncate(5));
+                set_memory_in_sections(&mut b, *a, d, 5, off, &case.section_cuts, c);
+                off += d.len();
             }
             Mem::Backing(b)
         }
@@ -373,6 +400,7 @@ fn build_memory(case: &Case, l: &Layout, c: &mut Counters) -> Mem {
                 }
             };
             let mut b = backing::Memory::new(endian.clone());
+            let mut sec_off = 0;
             for (a, d) in &l.islands {
                 let mut data = d.clone();
                 for (ua, _) in &restored {
@@ -382,7 +410,8 @@ fn build_memory(case: &Case, l: &Layout, c: &mut Counters) -> Mem {
                         data[off..off + ulen].copy_from_slice(&decoy_unit(ulen));
                     }
                 }
-                b.set_memory(*a, data, MemoryPermissions::from_bits_truncate(if exec_on_backing { 5 } else { 1 }));
+                set_memory_in_sections(&mut b, *a, &data, if exec_on_backing { 5 } else { 1 }, sec_off, &case.section_cuts, c);
+                sec_off += d.len();
             }
             let mut m = falcon::executor::Memory::new_with_backing(endian, RC::new(b));
             if case.perms_on != "backing" {
@@ -1424,7 +1453,13 @@ pub fn generate(run_seed: u64, index: u64) -> Case {
         state_seeds: vec![rng.next(), rng.next()],
         intrinsics: rng.chance(1, 2),
         fault_free,
+        section_cuts: Vec::new(),
     };
+    if (case.mem_impl == "backing" || case.mem_impl == "layered") && rng.chance(1, 2) {
+        for _ in 0..rng.range(1, 4) {
+            case.section_cuts.push(rng.range(1, 300) as usize);
+        }
+    }
     if case.mem_impl == "layered" {
         for _ in 0..rng.range(0, 6) {
             case.restore.push((rng.usize_below(n), *rng.pick(&[1usize, 2, 4, 8])));
@@ -1448,6 +1483,17 @@ pub fn generate(run_seed: u64, index: u64) -> Case {
             }
             case.gaps.sort();
             case.gaps.dedup_by_key(|g| g.0);
+        }
+        if rng.chance(1, 8) {
+            // a small hole that execution falls into, with more code mapped right behind it
+            // (within the same translation window): the stream ends at the hole
+            let cands: Vec<usize> = (0..n - 1).filter(|i| matches!(case.slots[*i], Slot::Op { .. } | Slot::Pad(_) | Slot::Raw(_))).collect();
+            if !cands.is_empty() {
+                let unit = if arch.is_x86() { 1 } else { 4 };
+                case.gaps.push((*rng.pick(&cands), rng.range(1, 6) * unit));
+                case.gaps.sort();
+                case.gaps.dedup_by_key(|g| g.0);
+            }
         }
         if rng.chance(1, 4) {
             let terms: Vec<usize> = (0..n).filter(|i| matches!(case.slots[*i], Slot::Term { kind, .. } if !(arch.is_x86() && kind % 3 == 1))).collect();
@@ -1546,6 +1592,9 @@ pub fn minimise(case: &Case, class: &str) -> Case {
     attempt!(c);
     let mut c = best.clone();
     c.mid_targets.clear();
+    attempt!(c);
+    let mut c = best.clone();
+    c.section_cuts.clear();
     attempt!(c);
     if best.mem_impl != "sim-own" {
         let mut c = best.clone();
